@@ -160,7 +160,7 @@ func flagRate(prop, flag string) int {
 	base := map[string]int{"vesting": 15, "extrafee": 15, "nest": 30, "overflow": 10, "longdur": 8, "huge": 10, "denomchange": 4, "minaccepts63": 3, "addr255": 8, "idwrap": 0, "bigfee": 5, "stakebond": 15, "dupsigners": 5, "granter": 20}[flag]
 	boost := map[string][]string{
 		"C05": {"vesting", "granter", "extrafee"}, "C04": {"granter", "vesting"}, "C06": {"extrafee", "nest", "bigfee", "overflow"}, "C08": {"overflow", "nest"},
-		"C11": {"longdur", "huge"}, "C12": {"huge", "longdur"}, "C14": {"denomchange", "huge", "vesting"}, "C16": {"minaccepts63", "dupsigners"},
+		"C11": {"longdur", "huge"}, "C12": {"huge", "longdur"}, "C14": {"denomchange", "huge", "vesting"}, "C16": {"minaccepts63", "dupsigners", "bigfee"},
 		"C18": {"addr255"}, "C20": {"addr255"}, "C02": {"stakebond", "nest"}, "C13": {"nest"}, "C15": {"overflow", "addr255"},
 	}
 	for _, f := range boost[prop] {
@@ -1065,6 +1065,22 @@ func (g *Gen) paramMsg(w *World) MsgSpec {
 		lim := pick(g.R, [][2]uint64{{1, 1}, {1, 3}, {2, 5}, {3, 9}, {5, 9}, {2, 2}, {100, 300}, {4, 4}, {1, 2}})
 		fees := []uint64{1, 7, 10, 1000, 1000000}
 		p := &ParamSpec{FeeReg: pick(g.R, fees), FeeRec: pick(g.R, fees), FeePur: pick(g.R, fees), Denom: cur.Denom, DefLimit: lim[0], MaxLimit: lim[1]}
+		if g.Flags["bigfee"] && g.Prop == "C16" && g.pct(25) {
+			// values at and around the 63/64-bit boundaries (all legal: positive, default <= maximum)
+			edge := []uint64{1<<63 - 1, 1 << 63, 1<<63 + 1, ^uint64(0) - 1, ^uint64(0)}
+			switch g.R.Intn(4) {
+			case 0:
+				p.FeeReg = pick(g.R, edge)
+			case 1:
+				p.FeeRec, p.FeePur = pick(g.R, edge), pick(g.R, edge)
+			case 2:
+				p.MaxLimit = pick(g.R, edge)
+			case 3:
+				p.MaxLimit = pick(g.R, edge)
+				p.DefLimit = pick(g.R, []uint64{p.MaxLimit, p.MaxLimit - 1, 1 << 62})
+			}
+			w.Fault("gov.param_edge_value")
+		}
 		if !valid {
 			switch g.R.Intn(7) {
 			case 0:
